@@ -83,8 +83,24 @@ var c16Statements = []string{
 	"INSERT INTO t1 (id, plain, c1) VALUES (%d, 'x', '$2b$%s')", // a value for a protected column that begins like a placeholder
 	"UPDATE t1 SET c1 = ':v%s' WHERE id = %d",
 	"UPDATE t1 SET c1 = '$%s' WHERE id = %d",
-	"UPDATE t2 SET note = 'x' FROM (SELECT '%s' AS m, %d AS n) s WHERE t2.id = 1", // sub-select in the FROM of an UPDATE
-	"SELECT id, note FROM t2 WHERE note = '%s' OR id = %d",                        // (the statement a query_ignore rule may list)
+	"UPDATE t2 SET note = 'x' FROM (SELECT '%s' AS m, %d AS n) s WHERE t2.id = 1",        // sub-select in the FROM of an UPDATE
+	"WITH w AS (SELECT '%s' AS m, %d AS n) SELECT m FROM w",                              // common table expression
+	"SELECT id FROM t1 WHERE plain = ANY (ARRAY['%s', 'b']) AND id = ANY (ARRAY[%d, 2])", // array constructors
+	"SELECT id FROM t1 WHERE plain = U&'%s' AND id = %d",                                 // Unicode-escape string
+	"SELECT id FROM t1 WHERE plain = N'%s' AND id = %d",                                  // national character string
+	"SELECT id FROM t1 WHERE plain SIMILAR TO '%s' AND id <> %d",
+	"SELECT id FROM t1 WHERE plain ~ '%s' AND id = %d", // regular-expression operator
+	"SET application_name = '%s'",
+	"SET statement_timeout = %d",
+	"PREPARE st2 AS SELECT id FROM t1 WHERE plain = '%s' AND id = %d", // SQL-level PREPARE
+	"EXPLAIN SELECT id FROM t1 WHERE plain = '%s' AND id = %d",
+	"SELECT id FROM t1 WHERE plain = '%s' AND id = %d; SELECT 1",               // two statements in one message
+	"SELECT sum(id) OVER (PARTITION BY plain = '%s' ORDER BY id + %d) FROM t1", // window definition
+	"SELECT coalesce(nullif(plain, '%s'), 'x') FROM t1 WHERE id NOT BETWEEN 1 AND %d",
+	"SELECT id FROM t1 WHERE plain = '%s' AND id = %d FOR UPDATE",
+	"SELECT id FROM t1 WHERE plain = '%s' FETCH FIRST %d ROWS ONLY",
+	"SELECT id FROM t1 WHERE plain = B'%d' OR plain = '%s'", // bit string
+	"SELECT id, note FROM t2 WHERE note = '%s' OR id = %d",  // (the statement a query_ignore rule may list)
 }
 
 // statements in the MySQL dialect (MySQL runs)
@@ -150,6 +166,20 @@ var c16MyStatements = []string{
 	"INSERT INTO t1 (id, plain, c1) VALUES (%d, 'x', '$2b$%s')", // a value for a protected column that begins like a placeholder
 	"UPDATE t1 SET c1 = ':v%s' WHERE id = %d",
 	"INSERT INTO t1 (id, plain, c1) VALUES (%d, 'x', ':v%s') ON DUPLICATE KEY UPDATE c1 = ':%s'",
+	"WITH w AS (SELECT '%s' AS m, %d AS n) SELECT m FROM w",
+	"SELECT id FROM t1 WHERE plain = N'%s' AND id = %d",
+	"SELECT id FROM t1 WHERE plain = b'%d' OR plain = '%s'",
+	"SET @v = '%s', @n = %d",
+	"SET NAMES '%s'",
+	"EXPLAIN SELECT id FROM t1 WHERE plain = '%s' AND id = %d",
+	"SELECT id FROM t1 WHERE plain = '%s' AND id = %d; SELECT 1",
+	"SELECT date_add(now(), INTERVAL %d DAY), '%s'",
+	"SELECT id FROM t1 WHERE plain = '%s' AND id = %d FOR UPDATE",
+	"SELECT id FROM t1 WHERE plain = '%s' AND id = %d LOCK IN SHARE MODE",
+	"PREPARE st2 FROM 'SELECT id FROM t1 WHERE plain = ''%s'' AND id = %d'",
+	"SELECT id FROM t1 WHERE plain SOUNDS LIKE '%s' AND id MOD %d = 1",
+	"SELECT id FROM t1 WHERE plain = '%s' COLLATE utf8_bin AND id = %d",
+	"INSERT INTO t2 (id, note) VALUES (%d, DEFAULT), (2, concat('%s', 'x'))",
 	"SELECT id, note FROM t2 WHERE note = '%s' OR id = %d", // (the statement a query_ignore rule may list)
 }
 
